@@ -501,6 +501,8 @@ def unpack_item(v, i, ln, node=None):
         return v.a[0][i]
     if v.k == "phi":
         return T("phi", (tuple(unpack_item(x, i, ln, node) for x in v.a[0]),), node)
+    if v.k == "ifexp":
+        return T("ifexp", (v.a[0], unpack_item(v.a[1], i, ln, node), unpack_item(v.a[2], i, ln, node)), v.node)
     if v.k == "comp" and v.a[0] in ("genexp", "listcomp"):
         # (f(v) for v in (a, b))  unpacked element-wise
         its = v.a[2]
